@@ -222,6 +222,73 @@ func constLike(v ssa.Value) bool {
 	return false
 }
 
+// returnsExtended: every value g returns is its parameter pa, possibly extended by append (directly, through a
+// local that starts as pa, or through a call of such a function — including g itself).
+func returnsExtended(g *ssa.Function, pa *ssa.Parameter, seen map[*ssa.Function]bool) bool {
+	if seen[g] {
+		return true // coinductive: recursion through itself
+	}
+	seen[g] = true
+	var ext func(v ssa.Value, d int) bool
+	vis := map[ssa.Value]bool{}
+	ext = func(v ssa.Value, d int) bool {
+		if v == ssa.Value(pa) {
+			return true
+		}
+		if d > 12 {
+			return false
+		}
+		if vis[v] {
+			return true
+		}
+		vis[v] = true
+		switch x := v.(type) {
+		case *ssa.Phi:
+			for _, e := range x.Edges {
+				if !ext(e, d+1) {
+					return false
+				}
+			}
+			return true
+		case *ssa.Call:
+			if _, isAppend := isBuiltinCall(x, "append"); isAppend {
+				return ext(x.Call.Args[0], d+1)
+			}
+			if h := core.StaticCallee(&x.Call); h != nil && h.Blocks != nil {
+				for i, a := range x.Call.Args {
+					if i < len(h.Params) && types.Identical(a.Type(), pa.Type()) && ext(a, d+1) && returnsExtended(h, h.Params[i], seen) {
+						return true
+					}
+				}
+			}
+			return false
+		case *ssa.UnOp:
+			// load of a local that is only ever assigned extended values
+			if al, ok := x.X.(*ssa.Alloc); ok && x.Op == token.MUL {
+				for _, st := range core.StoresTo(al) {
+					if !ext(st.Val, d+1) {
+						return false
+					}
+				}
+				return len(core.StoresTo(al)) > 0
+			}
+		}
+		return false
+	}
+	n := 0
+	for _, ret := range core.Returns(g) {
+		for _, res := range ret.Results {
+			if types.Identical(res.Type(), pa.Type()) {
+				n++
+				if !ext(res, 0) {
+					return false
+				}
+			}
+		}
+	}
+	return n > 0
+}
+
 // instrEffects lists the escaping effects of one instruction in terms of roots of its own function.
 func (e *ordEngine) instrEffects(in ssa.Instruction, depth int) []eff {
 	var out []eff
@@ -232,6 +299,16 @@ func (e *ordEngine) instrEffects(in ssa.Instruction, depth int) []eff {
 		if ap, ok := isBuiltinCall(x.Val, "append"); ok {
 			if sameAddrLoad(ap.Call.Args[0], x.Addr) {
 				kind = "append"
+			}
+		}
+		// x = f(…, x, …) where f only ever returns its parameter extended by appends: an append through a helper
+		if c, ok := x.Val.(*ssa.Call); ok {
+			if g := core.StaticCallee(&c.Call); g != nil && g.Blocks != nil {
+				for i, a := range c.Call.Args {
+					if sameAddrLoad(a, x.Addr) && i < len(g.Params) && returnsExtended(g, g.Params[i], map[*ssa.Function]bool{}) {
+						kind = "append"
+					}
+				}
 			}
 		}
 		vk := "other"
